@@ -205,7 +205,7 @@ func (eng *Engine) cachedWrites(f *ssa.Function) map[string]*Sort {
 	}
 	eng.writesBusy[f] = true
 	defer delete(eng.writesBusy, f)
-	ex := &Exec{eng: eng, fn: f, fc: eng.contractFor(f), collect: true, written: map[string]*Sort{}, loopEntry: map[*ssa.BasicBlock]*State{}, cloAt: map[*Term]*closureInfo{}, callSeq: map[string]int{}, boxes: map[*Term]*boxInfo{}, seqOf: map[*Term]*seqInfo{}}
+	ex := &Exec{eng: eng, fn: f, fc: eng.contractFor(f), collect: true, written: map[string]*Sort{}, freshRefs: map[*Term]bool{}, loopEntry: map[*ssa.BasicBlock]*State{}, cloAt: map[*Term]*closureInfo{}, callSeq: map[string]int{}, boxes: map[*Term]*boxInfo{}, seqOf: map[*Term]*seqInfo{}}
 	st, args := ex.newEntryState(f)
 	ex.pre = st.clone()
 	var binds []*Val
@@ -244,10 +244,10 @@ type FuncReport struct {
 
 // VerifyFunc symbolically executes one function against its contract and
 // returns the generated obligations (not yet solved).
-func (eng *Engine) VerifyFunc(f *ssa.Function) *FuncReport {
+func (eng *Engine) VerifyFunc(f *ssa.Function) (rep *FuncReport) {
 	t0 := time.Now()
 	fc := eng.contractFor(f)
-	rep := &FuncReport{Func: funcShort(f), Key: funcKey(f)}
+	rep = &FuncReport{Func: funcShort(f), Key: funcKey(f)}
 	ex := &Exec{eng: eng, fn: f, fc: fc, assumed: map[string]bool{}, loopEntry: map[*ssa.BasicBlock]*State{}, cloAt: map[*Term]*closureInfo{}, callSeq: map[string]int{}, boxes: map[*Term]*boxInfo{}, seqOf: map[*Term]*seqInfo{}}
 	defer func() {
 		rep.Seconds = time.Since(t0).Seconds()
